@@ -471,6 +471,19 @@ func evalPrefixCase(lc LayerCase, b *Batch, res *Result, distinct map[string]str
 		default:
 			names = []string{c.A[0]}
 		}
+		// "exactly the effect and result of the same operation": same method, same non-path arguments
+		// (create/open may be delegated as the OpenFile they abbreviate)
+		if calls[0].Method == c.M {
+			npIn, npOut := c.A[len(names):], calls[0].Args[len(names):]
+			if c.M == "symlink" {
+				npIn, npOut = nil, nil // symlink's first argument is the target (checked below)
+			}
+			if strings.Join(npIn, "\x00") != strings.Join(npOut, "\x00") {
+				viol("C14", fmt.Sprintf("PrefixFS(%q).%s%q handed the arguments %q to the base, expected %q", pre, c.M, c.A, npOut, npIn))
+			}
+		} else if !((c.M == "create" || c.M == "open") && calls[0].Method == "openfile") {
+			viol("C14", fmt.Sprintf("PrefixFS(%q).%s%q was delegated as %s", pre, c.M, c.A, calls[0].Method))
+		}
 		for k, nm := range names {
 			if stays(nm) && pa[k] != want(nm) {
 				viol("C14", fmt.Sprintf("PrefixFS(%q).%s: name %q mapped to %q, expected %q", pre, c.M, nm, pa[k], want(nm)))
